@@ -163,3 +163,31 @@ fn sel_classic_n2_no_blackout_eligible_frame() {
         }
     }
 }
+
+// C12 (non-interference, a two-run property): with the stall guard off "each decision is identical to the decision on the same links with
+// no stall history at all".  The guard clears flags and latches but not the lifetime counters, so every SCORE INPUT must be independent of
+// the whole stall state.  Same link, same clock, two arbitrary stall histories: the quality multiplier and the soft-cap factor are bitwise
+// the same.  Loop-free, full symbolic domain.
+#[kani::proof]
+#[kani::stub(f64::exp, exp_det)]
+fn score_factors_ignore_stall_history() {
+    use srtla_core::verif_hooks as vh;
+    let mut c = any_conn();
+    let now: u64 = kani::any();
+    let q1 = calculate_quality_multiplier(&c, now);
+    let m1 = verif_cc_soft_cap_multiplier(&c);
+    let mut p = vh::get_private(&c);
+    p.stall_gated = kani::any();
+    p.stall_latched_since_ms = kani::any();
+    p.stall_recovery_since_ms = kani::any();
+    p.stall_gate_events = kani::any();
+    p.stall_probe_counter = kani::any();
+    p.silence_pulled = kani::any();
+    p.silence_pulls = kani::any();
+    vh::set_private(&mut c, p);
+    let q2 = calculate_quality_multiplier(&c, now);
+    let m2 = verif_cc_soft_cap_multiplier(&c);
+    assert!(q1.to_bits() == q2.to_bits());
+    assert!(m1.to_bits() == m2.to_bits());
+    kani::cover!(vh::get_private(&c).stall_gate_events > 0);
+}
